@@ -1,0 +1,88 @@
+//go:build verif
+
+// Contracts for the deductive verifier in /verif (govc). Only compiled with -tags verif.
+// C27: generated desktop files cannot launch anything but the snap's own applications.
+
+package wrappers
+
+// w is the wrapper of one of the applications of snap s
+//@ define ownWrapper(s *snap.Info, w string) = exists k string :: has(s.Apps, k) && w == s.Apps[k].WrapperPath()
+
+// the instance name of s (what (*snap.Info).InstanceName returns)
+//@ define instName(s *snap.Info) = ite(s.InstanceKey != "", s.SnapName() + "_" + s.InstanceKey, s.SnapName())
+
+// p is one word for whatever parses an Exec= value: no blank, no control character
+//@ define oneWord(p string) = forall i int :: 0 <= i && i < len(p) ==> p[i] > 32 && p[i] != 127
+
+// b holds exactly the bytes of p
+//@ define bytesAre(b []byte, p string) = len(p) == len(b) && forall i int :: 0 <= i && i < len(p) ==> int(b[i]) == int(p[i])
+
+// ---- the allow-list ---------------------------------------------------------------------------
+//
+// isValidDesktopFileLine is (*regexp.Regexp).Match of the allow-list expression (T5: the regular
+// expression means what it says). The two ghosts record the last line it was asked about and its
+// verdict, so that the call sites of sanitizeDesktopFile can be guarded by them.
+
+//@ ghost checkedLine() slice
+//@ ghost lineAllowed() bool
+
+//@ func var:isValidDesktopFileLine
+//@   trusted
+//@   assigns checkedLine lineAllowed
+//@   ensures checkedLine() == arg0 && lineAllowed() == result
+
+// Ghost code, never called: with a store to the variable outside init the verifier treats
+// isValidDesktopFileLine as an arbitrary function value obeying the contract above (otherwise it
+// resolves the variable to (*regexp.Regexp).Match, which has no model, and ignores the contract).
+func ghostReplaceLineCheck(f func([]byte) bool) { isValidDesktopFileLine = f }
+
+// ---- Exec lines ---------------------------------------------------------------------------------
+
+//@ func rewriteExecLine
+//@   props C27
+//@   ensures [own-wrapper] result1 == nil ==> (ownWrapper(s, final(wrapper)) && (result0 == "Exec=" + ("env BAMF_DESKTOP_FILE_HINT=" + desktopFile + " ") + final(wrapper) || result0 == "Exec=" + ("env BAMF_DESKTOP_FILE_HINT=" + desktopFile + " ") + final(wrapper) + line[len("Exec=")+len(final(validCmd)):])) || (has(s.Apps, final(desktopFileApp)) && result0 == "Exec=" + ("env BAMF_DESKTOP_FILE_HINT=" + desktopFile + " ") + s.Apps[final(desktopFileApp)].WrapperPath())
+// hint-one-word does NOT hold on the unchanged tree (finding): the name of the installed desktop file is
+// put unquoted into the Exec value and nothing checks it; "x sh -c id #.desktop" in meta/gui gives
+// "Exec=env BAMF_DESKTOP_FILE_HINT=.../snap_x sh -c id #.desktop /snap/bin/..." and a newline in the
+// name adds whole lines after the allow-list has been applied.
+//@   ensures [hint-one-word] result1 == nil ==> oneWord(desktopFile)
+//@   ensures [exec-key] result1 == nil ==> strings.HasPrefix(result0, "Exec=")
+//@   ensures [refused-empty] result1 != nil ==> result0 == ""
+//@   ensures [refused-only-without-fallback] result1 != nil && oneWord(desktopFile) ==> !has(s.Apps, final(desktopFileApp))
+
+// ---- Icon lines ---------------------------------------------------------------------------------
+
+// icon is the local holding strings.SplitN(line, "=", 2)[1] (no model: not tied to line here)
+//@ func rewriteIconLine
+//@   props C27
+//@   ensures [unchanged-or-instance] result1 == nil ==> result0 == line || result0 == "Icon=snap." + instName(s) + "." + final(icon)[len("snap." + s.SnapName() + "."):]
+//@   ensures [snap-names-rewritten] result1 == nil && strings.HasPrefix(final(icon), "snap.") ==> strings.HasPrefix(final(icon), "snap." + s.SnapName() + ".") && result0 == "Icon=snap." + instName(s) + "." + final(icon)[len("snap." + s.SnapName() + "."):]
+//@   ensures [refused-empty] result1 != nil ==> result0 == ""
+//@   guard call filepath.Clean: [inside-snap-first] strings.HasPrefix(arg0, "${SNAP}/") && arg0 == icon
+
+// ---- the sanitiser ------------------------------------------------------------------------------
+//
+// Per loop iteration (the ghosts are unknown at the loop head, so lineAllowed() can only be
+// established by this iteration's call of the allow-list).
+
+//@ func sanitizeDesktopFile
+//@   props C27
+//@   guard call rewriteExecLine: [checked-line] lineAllowed() && arg0 == s && arg1 == desktopFile
+//@   guard call rewriteExecLine: [same-bytes] len(arg2) == len(checkedLine()) && forall i int :: 0 <= i && i < len(arg2) ==> int(arg2[i]) == int(checkedLine()[i])
+//@   guard call rewriteIconLine: [allowed] lineAllowed() && arg0 == s
+//@   guard call bytes.Replace: [allowed] lineAllowed() && arg0 == bline
+//@   guard call bytes.Replace: [only-mount-dir] arg2 == mountDir && arg3 == -1 && bytesAre(arg1, "${SNAP}")
+//@   guard call (*bytes.Buffer).Write: [allowed] lineAllowed() && called("bytes.Replace")
+//@   guard call (*bytes.Buffer).Write: [line-or-tag] arg1 == bline || bytesAre(arg1, "X-SnapInstanceName=" + instName(s) + "\n")
+
+//@ func deriveDesktopFilesContent
+//@   props C27
+//@   guard call sanitizeDesktopFile: [same-snap] arg0 == s
+//@   guard store MemoryFileState.Content: [sanitised] val == fileContent && called("sanitizeDesktopFile")
+
+// the repair of the desktop-file-name finding: names with blanks or control characters are refused
+//@ func isOneWord
+//@   props C27
+//@   nopanic
+//@   ensures result == oneWord(s)
+//@   loop 0: invariant 0 <= i && i <= len(s) && forall j int :: 0 <= j && j < i ==> s[j] > 32 && s[j] != 127
